@@ -763,6 +763,25 @@ fn dedup_sweep() {
             } }
             checked += 1;
         }
+        // what else the module holds (annotations, names, constants) has no bearing on deduplication
+        {
+            let mut b = Builder::new();
+            let f = b.type_float(32, None);
+            let u = b.type_int(32, 0);
+            let id1 = fa(&mut b, f, u);
+            b.decorate(id1, spirv::Decoration::Block, vec![]);
+            b.member_decorate(id1, 0, spirv::Decoration::Offset, vec![rspirv::dr::Operand::LiteralBit32(0)]);
+            b.name(id1, "t");
+            let _c = b.constant_bit32(u, 5);
+            let n1 = b.module_ref().types_global_values.len();
+            let id2 = fa(&mut b, f, u);
+            let n2 = b.module_ref().types_global_values.len();
+            if id2 != id1 || n2 != n1 { println!("MISMATCH {} requested again after being decorated / named: id {} (first {}), declarations {} -> {}", la, id2, id1, n1, n2); }
+            let m = b.module();
+            let mut b2 = Builder::new_from_module(m);
+            let id3 = fa(&mut b2, f, u);
+            if id3 != id1 { println!("MISMATCH {} requested again after new_from_module: id {} (first {})", la, id3, id1); }
+        }
         // explicit id: always appends, carries the id
         let mut b = Builder::new();
         let f = b.type_float(32, None);
